@@ -492,6 +492,8 @@ func (env *Env) call(n *ECall) Val {
 		return boolVal(Eq(v, app(SReal, "to_real", app(SInt, "to_int", v))))
 	case "truncdiv":
 		return intVal(x.truncDiv(arg(0).T(), arg(1).T()))
+	case "gaugechild":
+		return intVal(x.uf("gaugechild", []Sort{SInt, SInt}, SInt, arg(0).T(), arg(1).T()))
 	case "usertoken":
 		return Val{Typ: types.Typ[types.String], C: []Term{x.uf("usertoken", []Sort{SInt}, SInt, arg(0).T())}}
 	case "authok":
@@ -516,6 +518,13 @@ func (env *Env) call(n *ECall) Val {
 		// marshaled(bytes, T): the message of type *T the byte slice was marshaled from
 		t := env.pkg.resolveType(n.TypeArg)
 		return Val{Typ: types.NewPointer(t), C: []Term{x.uf("srcmsg", []Sort{SInt}, SInt, arg(0).C[0])}}
+	case "evtotal":
+		kind := n.Args[0].(*EIdent).Name
+		a := env.st.heapGet("ghost.evn:"+kind, ArrSort(SInt))
+		return intVal(Select(a, TZero))
+	case "cancelled":
+		a := env.st.heapGet("ghost.ctxcancelled", ArrSort(SBool))
+		return boolVal(Select(a, arg(0).T()))
 	case "once_done":
 		p := arg(0)
 		a := env.st.heapGet("once:"+p.prefix(), ArrSort(SBool))
